@@ -50,9 +50,16 @@ VARIABLES l,        \* cursor
           firstpub, \* monitor: topic -> virtual ms of the publish that selected the current fanout
           fanLost,  \* monitor: topics whose fanout lost a member at a heartbeat since it was selected
           gated,    \* monitor: peers whose writes the scenario gated
-          usedNames \* monitor: message names already accepted or published in this scenario (a scenario may
+          usedNames,\* monitor: message names already accepted or published in this scenario (a scenario may
                     \* re-use a name for a second, different message: IDONTWANTs are then not attributable)
-tvars == <<l, cfg, lastpub, firstpub, fanLost, gated, usedNames>>
+          idw,      \* monitor: IDONTWANT announcements in force, records [p, m, ttl, rpc] built from the observed
+                    \* `idontwant` stimuli exactly as the code documents (union over RPCs; first MaxIDontWantLength
+                    \* ids of an RPC; RPCs beyond MaxIDontWantMessages per heartbeat ignored; TTL in heartbeats;
+                    \* forgotten when the peer's stream closes) - NOT copied from the node's bookkeeping
+          idwCnt,   \* monitor: peer -> IDONTWANT RPCs counted in the current heartbeat interval
+          idwSeq,   \* monitor: peer -> accepted IDONTWANT RPCs so far (coverage: announced in an EARLIER RPC)
+          created   \* monitor: message names that exist (the scenario interpreter can name their real ids)
+tvars == <<l, cfg, lastpub, firstpub, fanLost, gated, usedNames, idw, idwCnt, idwSeq, created>>
 
 Rng(s) == {s[i] : i \in DOMAIN s}
 Get(f, k, d) == IF k \in DOMAIN f THEN f[k] ELSE d
@@ -112,7 +119,8 @@ View(d, local, batch, fpre, fpost) ==
                 ELSE {p \in AllPeers : ~IsMesh(p)},
      elig |-> EligFor(t), ok |-> OkSet,
      atThr |-> {p \in AllPeers : Scored /\ ScoreOf(p) = PubThr},
-     unwanted |-> IF Gossip THEN {p \in DOMAIN P.unwanted : d.m \in DOMAIN P.unwanted[p]} ELSE {},
+     unwanted |-> IF Gossip THEN {x.p : x \in {y \in idw : y.m = d.m}} ELSE {},
+     unwantedLo |-> IF Gossip THEN {p \in DOMAIN P.unwanted : d.m \in DOMAIN P.unwanted[p]} ELSE {},
      queue |-> DOMAIN P.peers, rsSize |-> RsSize]
 
 \* --------------------------------------------------------------- reporting
@@ -160,6 +168,10 @@ JudgeDeliver(d, local, batch, fpre, fpost) ==
                 \cup Tag(DropTo(m) # {}, "drop-counts-as-sent")
                 \cup (IF Wire # {} THEN FieldTags ELSE {})     \* copies arrived: copyEqual compared them with what was received
                 \cup Tag(ambiguous, "message-name-reused")
+                \cup Tag(Gossip /\ ~v.local /\ ~FloodMode(v) /\ ~ambiguous
+                         /\ \E x \in idw : /\ x.m = m /\ x.rpc < Get(idwSeq, x.p, 0) /\ x.p \in v.queue /\ x.p \notin Excl(v)
+                                           /\ x.p \in (IF v.joined THEN v.mesh ELSE v.fanout \cup v.fanoutPost) \ DirectIn(v),
+                         "idontwant-in-earlier-rpc")
         sig  == [router |-> Router, own |-> d.via = "self", sa |-> d.via = d.from, local |-> v.local, flood |-> v.floodPublish,
                  joined |-> v.joined, ntp |-> Cardinality(v.tp), nmesh |-> Cardinality(v.mesh), nfan |-> Cardinality(v.fanout),
                  ndir |-> Cardinality(DirectIn(v)), nfl |-> Cardinality(FloodOk(v)), nunw |-> Cardinality(v.unwanted \cap (v.mesh \cup v.fanout)),
@@ -246,14 +258,46 @@ NextFanLost ==
     ELSE (fanLost \cup {t \in FanoutTopics : E.hb > 0 /\ SetAt(P.fanout, t) \ SetAt(Q.fanout, t) # {}})
          \ {t \in DOMAIN Q.mesh \cup DOMAIN P.fanout : SetAt(Q.fanout, t) = {}}
 
-TInit == l = 1 /\ cfg = [router |-> "none"] /\ lastpub = <<>> /\ firstpub = <<>> /\ fanLost = {} /\ gated = {} /\ usedNames = {} /\ TLCSet(1, 0)
+\* ------------------------------------------------------------ the IDONTWANT monitor (gossipsub.go handleIDontWant, clearIDontWantCounters)
+IdwAct == InScenario /\ Gossip /\ E.act.a = "idontwant"
+IdwPeer == E.act.p
+\* the RPC reached handleIDontWant: it arrived, its sender is not graylisted (direct peers always pass), and the sender has
+\* not used up its MaxIDontWantMessages RPCs of this heartbeat interval
+IdwArrived == \E i \in EvIdx("Recv") : E.ev[i].p = IdwPeer /\ E.ev[i].rpc.idontwant # <<>>
+IdwHandled == IdwAct /\ IdwArrived /\ (IdwPeer \in DirectSet \/ ~Scored \/ ScoreOf(IdwPeer) >= cfg.thr.graylist)
+IdwCounted == IdwHandled /\ Get(idwCnt, IdwPeer, 0) < cfg.maxIDWMsgs
+IdwNames == IF ~IdwCounted THEN {}
+            ELSE {E.act.ids[i] : i \in {i \in 1..Min2(Len(E.act.ids), cfg.maxIDWLen) :
+                                            E.act.ids[i] \in created \/ (Has(E.act, "own") /\ E.act.own)}}
+NextIdw ==
+    IF ~(InScenario /\ Gossip) THEN idw
+    ELSE LET n    == Get(idwSeq, IdwPeer, 0) + 1
+             add  == IF IdwAct THEN {[p |-> IdwPeer, m |-> x, ttl |-> cfg.idwTTL, rpc |-> n] : x \in IdwNames} ELSE {}
+             kept == {x \in idw : ~\E y \in add : y.p = x.p /\ y.m = x.m}
+             all  == {x \in kept \cup add : x.p \notin DownIn}
+         IN {[x EXCEPT !.ttl = x.ttl - E.hb] : x \in {y \in all : y.ttl - E.hb > 0}}
+NextIdwCnt ==
+    IF ~(InScenario /\ Gossip) THEN idwCnt
+    ELSE IF E.hb > 0 THEN <<>>
+    ELSE IF IdwCounted THEN [q \in DOMAIN idwCnt \cup {IdwPeer} |-> Get(idwCnt, q, 0) + (IF q = IdwPeer THEN 1 ELSE 0)]
+    ELSE idwCnt
+NextIdwSeq ==
+    IF IdwAct /\ IdwCounted THEN [q \in DOMAIN idwSeq \cup {IdwPeer} |-> Get(idwSeq, q, 0) + (IF q = IdwPeer THEN 1 ELSE 0)]
+    ELSE idwSeq
+NextCreated ==
+    IF ~InScenario THEN created
+    ELSE created \cup (IF E.act.a = "msg" /\ Has(E.act, "m") THEN {E.act.m} ELSE {}) \cup {E.ev[i].m : i \in Delivers}
+
+TInit == idw = {} /\ idwCnt = <<>> /\ idwSeq = <<>> /\ created = {} /\ l = 1 /\ cfg = [router |-> "none"] /\ lastpub = <<>> /\ firstpub = <<>> /\ fanLost = {} /\ gated = {} /\ usedNames = {} /\ TLCSet(1, 0)
 
 TNext ==
     /\ l <= Len(Trace)
     /\ Judge
     /\ IF IsReset
-         THEN cfg' = E.act.cfg /\ lastpub' = <<>> /\ firstpub' = <<>> /\ fanLost' = {} /\ gated' = {} /\ usedNames' = {}
+         THEN /\ cfg' = E.act.cfg /\ lastpub' = <<>> /\ firstpub' = <<>> /\ fanLost' = {} /\ gated' = {} /\ usedNames' = {}
+              /\ idw' = {} /\ idwCnt' = <<>> /\ idwSeq' = <<>> /\ created' = {}
          ELSE /\ cfg' = cfg /\ lastpub' = NextLastpub /\ firstpub' = NextFirstpub /\ fanLost' = NextFanLost
+              /\ idw' = NextIdw /\ idwCnt' = NextIdwCnt /\ idwSeq' = NextIdwSeq /\ created' = NextCreated
               /\ usedNames' = usedNames \cup {E.ev[i].m : i \in Delivers}
                                          \cup (IF E.act.a = "publish" /\ Has(E.act, "m") THEN {E.act.m} ELSE {})
               /\ gated' = IF E.act.a = "gate" THEN (IF E.act.on THEN gated \cup {E.act.p} ELSE gated \ {E.act.p}) ELSE gated
